@@ -1,2 +1,241 @@
--- stub: replaced by the component's line-protocol driver
-def main : IO Unit := pure ()
+import CelmaVerif.Base.Proto
+import CelmaVerif.Model.ProgArgs.Handler
+import CelmaVerif.Model.ProgArgs.Groups
+/- line-protocol driver for the argument handler model (C01–C04, C07 sources, C08) -/
+open CelmaVerif CelmaVerif.Proto CelmaVerif.Keys CelmaVerif.ProgArgs
+
+structure St where
+  building : Cfg := { args := [] }
+  inits    : List DVal := []
+  bErr     : Option Exc := none        -- first set-up error of the configuration being built
+  cfg      : Option (Cfg × List DVal) := none
+  prog     : Word := "prog".toList
+
+def word (hx : String) : Option Word := (hexDecode hx).map (·.map Char.ofNat)
+def wordOut (w : Word) : String := hexOut (w.map Char.toNat)
+
+def splitOnChar (c : Char) (s : String) : List String := s.splitOn (String.singleton c)
+
+def parseKeys (spec : String) : Res (List Key) :=
+  ((splitOnChar ';' spec).filter (· ≠ "")).mapM (fun t => Key.parse t.toList)
+
+def parseInt (s : String) : Option Int := s.toInt?
+
+def parseCheck (s : String) : Option Check :=
+  match splitOnChar ':' s with
+  | ["lower", v] => (parseInt v).map .lower
+  | ["upper", v] => (parseInt v).map .upper
+  | ["range", a, b] => do let a ← parseInt a; let b ← parseInt b; pure (.range a b)
+  | ["values", l] => some (.values (((splitOnChar ',' l).filter (· ≠ "")).map String.toList) false)
+  | ["values", l, "ic"] => some (.values (((splitOnChar ',' l).filter (· ≠ "")).map String.toList) true)
+  | ["minlen", n] => n.toNat?.map .minLength
+  | ["maxlen", n] => n.toNat?.map .maxLength
+  | _ => none
+
+def parseCard (s : String) : Option Card :=
+  match splitOnChar ':' s with
+  | ["none"] => some .unlimited
+  | ["max", n] => (parseInt n).map .max
+  | ["exact", n] => (parseInt n).map .exact
+  | ["range", a, b] => do let a ← parseInt a; let b ← parseInt b; pure (.range a b)
+  | _ => none
+
+def kindOf : String → Option Kind
+  | "flag" => some .flag | "int" => some .int | "str" => some .str
+  | "level" => some .level | "vec" => some .vecInt | _ => none
+
+def defaultVMode : Kind → VMode
+  | .flag => .none | .level => .optional | _ => .required
+
+def defaultCard : Kind → Card
+  | .flag => .max 1 | .int => .max 1 | .str => .max 1 | _ => .unlimited
+
+def parseInit (k : Kind) (s : String) : Option DVal :=
+  match k with
+  | .flag => some (.flag (s == "1"))
+  | .int => (parseInt s).map .int
+  | .str => (word s).map .str
+  | .level => (parseInt s).map .level
+  | .vecInt => if s == "-" || s == "" then some (.vec []) else ((splitOnChar ',' s).mapM parseInt).map .vec
+
+/-- one `pa arg …` line; `none` = malformed line (bad-op) -/
+def parseArg (toks : List String) : Option (Res ArgDef × Option String) := do
+  let kind ← (kv toks "kind").bind kindOf
+  let keySpec ← kv toks "key"
+  let mut checks : List Check := []
+  let mut cons : List (CType × String) := []
+  for t in toks do
+    if t.startsWith "check=" then
+      let c ← parseCheck (t.drop 6).toString
+      checks := checks ++ [c]
+    else if t.startsWith "req=" then cons := cons ++ [(.required, (t.drop 4).toString)]
+    else if t.startsWith "excl=" then cons := cons ++ [(.excluded, (t.drop 5).toString)]
+  let vmode ← match kv toks "vmode" with
+    | some "required" => some VMode.required
+    | some "optional" => some VMode.optional
+    | some _ => none
+    | none => some (defaultVMode kind)
+  let card ← match kv toks "card" with
+    | some c => parseCard c
+    | none => some (defaultCard kind)
+  let sep ← match kv toks "sep" with
+    | some hx => (word hx).bind (·.head?)
+    | none => some ','
+  let flagInit := (kv toks "init") == some "1"
+  let r : Res ArgDef := do
+    let key ← Key.parse keySpec.toList
+    let cs ← cons.mapM (fun (ct, spec) => do let ks ← parseKeys spec; pure (ct, ks))
+    pure { key := key, kind := kind, vmode := vmode, card := card, mandatory := toks.contains "mandatory",
+           checks := checks, constraints := cs, multi := toks.contains "multi", sep := sep,
+           flagValue := !flagInit, deprecated := toks.contains "deprecated", mixIncSet := toks.contains "mix" }
+  pure (r, kv toks "init")
+
+def showPairs (ps : List (ArgDef × ArgSt)) : String :=
+  let items := ps.zipIdx.map fun ((d, s), i) =>
+    let v := match d.kind, s.dest with
+      | .flag, .flag b => s!"f={if b then 1 else 0}"
+      | .int, .int v => s!"i={v}"
+      | .str, .str w => s!"s={wordOut w}"
+      | .level, .level n => s!"l={n}"
+      | .vecInt, .vec l => "v=[" ++ String.intercalate "," (l.map toString) ++ "]"
+      | _, _ => "?"
+    s!" {i}:{v}"
+  String.join items
+
+def showDests (cfg : Cfg) (h : HState) : String := showPairs (cfg.args.zip h.args)
+
+def showGroupDests (cfg : Cfg) (am order : List Nat) (ms : List (Cfg × HState)) : String :=
+  showPairs (groupDests cfg am order ms)
+
+def resLine {α : Type} (r : Res α) (f : α → String) : String :=
+  match r with
+  | .ok a => "ok" ++ f a
+  | .throw e => s!"throw {e.name}"
+  | .oob w => s!"oob {w}"
+
+def showElem (e : Elem) : String :=
+  match e.ty with
+  | .singleCharArg => s!" C@{e.argIndex}.{e.charPos}:{wordOut [e.ch]}"
+  | .control => s!" X@{e.argIndex}.{e.charPos}:{wordOut [e.ch]}"
+  | .stringArg => s!" S@{e.argIndex}:{wordOut e.str}"
+  | .value => s!" V@{e.argIndex}:{wordOut e.val}"
+  | .invalid => s!" I@{e.argIndex}"
+
+/-- the element stream of `for (ai = begin(); ai != end(); ++ai)` -/
+def tokenStream (argv : List Word) : String :=
+  let rec go (fuel : Nat) (it : It) (acc : String) : String :=
+    match fuel with
+    | 0 => "oob fuel" ++ acc
+    | fuel + 1 =>
+      if it.atEnd then "ok" ++ acc
+      else
+        let acc := acc ++ showElem it.cur
+        match it.step with
+        | .ok it' => go fuel it' acc
+        | .throw e => s!"throw {e.name} after{acc}"
+        | .oob w => s!"oob {w} after{acc}"
+  match It.begin argv with
+  | .ok it => go (totalChars argv) it ""
+  | .throw e => s!"throw {e.name} after"
+  | .oob w => s!"oob {w}"
+
+/-- resolve the keys of a handler constraint as `Handler::validArguments` does (simplified: every
+    token must designate a defined argument, no argument twice) -/
+def resolveGlob (cfg : Cfg) (spec : String) : Res (List Key) := do
+  let toks := (splitOnChar ';' spec).filter (· ≠ "")
+  if toks.isEmpty then .throw .invalid_argument else pure ()
+  let mut out : List Key := []
+  for t in toks do
+    let k ← Key.parse t.toList
+    match ← findArg cfg.abbr cfg.table k with
+    | none => .throw .invalid_argument
+    | some (_, d) =>
+      if out.contains d.key then .throw .invalid_argument else out := out ++ [d.key]
+  pure out
+
+def splitBar (s : String) : List String := splitOnChar '|' s
+
+def step (s : St) (line : String) : St × String :=
+  let toks := tokens line
+  match toks with
+  | ["case", _] => ({}, "ok")
+  | "pa" :: "cfg" :: "begin" :: rest =>
+    ({ s with building := { args := [], abbr := (kv rest "abbr").getD "1" == "1" }, inits := [], bErr := none }, "ok")
+  | "pa" :: "arg" :: rest =>
+    match parseArg rest with
+    | none => (s, "bad-op")
+    | some (r, init) =>
+      match r with
+      | .ok d =>
+        let iv := match init with
+          | some i => (parseInit d.kind i).getD (defaultDest d.kind)
+          | none => defaultDest d.kind
+        -- Storage::addArgument: duplicate / mismatching keys are refused
+        match addArgument s.building.table d.key d with
+        | .ok _ => ({ s with building := { s.building with args := s.building.args ++ [d] }, inits := s.inits ++ [iv] }, "ok")
+        | .throw e => ({ s with bErr := s.bErr <|> some e }, "ok")
+        | .oob _ => ({ s with bErr := s.bErr <|> some .other }, "ok")
+      | .throw e => ({ s with bErr := s.bErr <|> some e }, "ok")
+      | .oob _ => ({ s with bErr := s.bErr <|> some .other }, "ok")
+  | ["pa", "glob", kind, spec] =>
+    let gk := match kind with
+      | "allof" => some GKind.allOf | "anyof" => some GKind.anyOf | "oneof" => some GKind.oneOf | _ => none
+    match gk with
+    | none => (s, "bad-op")
+    | some gk =>
+      if s.bErr.isSome then (s, "ok") else
+      match resolveGlob s.building spec with
+      | .ok ks => ({ s with building := { s.building with globals := s.building.globals ++ [{ kind := gk, keys := ks }] } }, "ok")
+      | .throw e => ({ s with bErr := some e }, "ok")
+      | .oob _ => ({ s with bErr := some .other }, "ok")
+  | "pa" :: "cfg" :: "end" :: _ =>
+    match s.bErr with
+    | some e => ({ s with cfg := none }, s!"throw {e.name}")
+    | none => ({ s with cfg := some (s.building, s.inits) }, s!"ok args={s.building.args.length}")
+  | ["pa", "prog", hx] =>
+    match word hx with
+    | some w => ({ s with prog := w }, "ok")
+    | none => (s, "bad-op")
+  | "pa" :: "tokens" :: ws =>
+    match ws.mapM word with
+    | some ws => (s, tokenStream (s.prog :: ws))
+    | none => (s, "bad-op")
+  | "pa" :: "eval" :: rest =>
+    match s.cfg with
+    | none => (s, "bad-op")
+    | some (cfg, inits) =>
+      let opts := rest.takeWhile (· ≠ "--")
+      let ws := (rest.dropWhile (· ≠ "--")).drop 1
+      if !rest.contains "--" then (s, "bad-op") else
+      match ws.mapM word with
+      | none => (s, "bad-op")
+      | some ws =>
+        let file := (kv opts "file").map (fun f => (splitBar f).filterMap word)
+        let env := ((kv opts "env").bind word)
+        -- an empty environment value is ignored by the handler
+        let env := match env with | some [] => none | e => e
+        let r := evalArguments cfg (cfg.initState inits) { file := file, env := env } (s.prog :: ws)
+        (s, resLine r (showDests cfg))
+  | "pa" :: "group" :: rest =>
+    match s.cfg with
+    | none => (s, "bad-op")
+    | some (cfg, inits) =>
+      let opts := rest.takeWhile (· ≠ "--")
+      let ws := (rest.dropWhile (· ≠ "--")).drop 1
+      match ws.mapM word, kv opts "members" with
+      | some ws, some mem =>
+        let (am, gm) := match splitOnChar '/' mem with
+          | [a, g] => (a, g)
+          | [a] => (a, "")
+          | _ => ("", "")
+        let digits (x : String) : List Nat := x.toList.map (fun c => c.toNat - 48)
+        let order := match kv opts "order" with
+          | some o => digits o
+          | none => (List.range 10).filter (fun d => (digits am).contains d || (digits gm).contains d)
+        if am.length ≠ cfg.args.length || gm.length ≠ cfg.globals.length then (s, "bad-op") else
+        let r := groupsEval cfg inits (digits am) (digits gm) order (s.prog :: ws)
+        (s, resLine r (fun hs => showGroupDests cfg (digits am) order hs))
+      | _, _ => (s, "bad-op")
+  | _ => (s, "bad-op")
+
+def main : IO Unit := run ({} : St) step
